@@ -399,3 +399,39 @@ def run_sessions(chk, programs):
         lines = observe(obs, shifted, base_dump)
         out.append({"kind": kind, "prog": prog, "crashed": False, "lines": lines})
     return out
+
+
+# ---------------------------------------------------------------------------
+# diagnosis of a broken facts obligation (c05_facts_now / c06_facts_now)
+
+DIAG = """From Coq Require Import String List Bool Arith.
+From Raven Require Import Model.ProtoFacts Model.Protocol Gen.Facts.
+Import ListNotations.
+Open Scope string_scope.
+Definition only (s : site) : facts := mk_facts (f_dispatch table) [s] (f_replies table) (f_default_once table) (f_select_clears table) (f_auth_final table) (f_short_tagged table).
+Definition withsel (s : site) : facts := mk_facts (f_dispatch table) (s :: filter (fun x => match s_kind x with UseSel => true | _ => false end) (f_sites table)) (f_replies table) (f_default_once table) (f_select_clears table) (f_auth_final table) (f_short_tagged table).
+Definition show (s : site) : string := s_cmd s ++ " " ++ s_fn s ++ " " ++ s_arg s ++ " @" ++ s_where s.
+Definition bad_guards := Eval vm_compute in map show (filter (fun s => negb (guards_ok (only s))) (f_sites table)).
+Definition bad_access := Eval vm_compute in map show (filter (fun s => negb (access_ok (withsel s))) (f_sites table)).
+Definition bad_select := Eval vm_compute in map show (filter (fun s => negb (select_sites_ok (only s))) (f_sites table)).
+Definition bad_replies := Eval vm_compute in filter (fun r => let '(mn, mx) := snd r in negb (Nat.eqb mn 1 && Nat.eqb mx 1)) (f_replies table).
+Definition bits := Eval vm_compute in (f_default_once table, f_select_clears table, f_auth_final table, f_short_tagged table, restart_ok table).
+Print bad_guards. Print bad_access. Print bad_select. Print bad_replies. Print bits.
+"""
+
+
+def explain():
+    """Which sites / reply counts / structural bits of the regenerated table violate the obligations."""
+    rc, log = C.coq_eval_cases("ProtoDiag", DIAG)
+    if rc != 0:
+        return "the diagnosis file did not compile: " + log[-600:]
+    out = []
+    for name, what in (("bad_guards", "sites whose guard facts are insufficient (C06 a/b/c)"), ("bad_access", "store-access sites outside the allowed accessors (C05)"),
+                       ("bad_select", "sites under SELECT/EXAMINE that do_select does not account for, or selection written elsewhere"),
+                       ("bad_replies", "handlers whose number of tagged completions per path is not exactly one (min, max)"),
+                       ("bits", "(default_replies_once, select_clears_first, auth_is_final, short_line_tagged, restart_ok)")):
+        m = re.search(r"%s\s*=\s*(.*?)\n\s*:" % name, log, re.S)
+        txt = re.sub(r"\s+", " ", m.group(1)).strip() if m else "?"
+        if txt not in ("[]", "?") or name == "bits":
+            out.append("%s: %s" % (what, txt[:1200]))
+    return " || ".join(out)
